@@ -3,7 +3,7 @@
    script (main body and every function body, before and after optimisation). *)
 From Coq Require Import Floats.
 From EF Require Import Model.Base Gen.Tables Model.Lexer Model.Ast Model.Parser Model.Code Model.Value Model.Env
-                       Model.Reflect Model.Compiler Model.Optimizer Model.VM Model.Verifier Spec.Moded Proofs.VerifierProofs.
+                       Model.Reflect Model.Compiler Model.Optimizer Model.VM Model.Verifier Spec.Moded Proofs.VerifierProofs Proofs.StructProofs.
 Open Scope N_scope.
 
 (* what acceptance by the verifier means, instruction by instruction *)
@@ -50,3 +50,14 @@ Proof. exact VerifierProofs.valueless_refuted. Qed.
 (* the verifier accepts the code of a representative well-moded program, compiled and optimised (non-vacuity) *)
 Theorem C18_example_accepts : VerifierProofs.example_verifies = true.
 Proof. exact VerifierProofs.example_verifies_true. Qed.
+
+(* Every program the compiler accepts - ANY script, any nesting - is structurally sound, main body and
+   every function body: it decodes completely into known instructions with complete operands, every
+   jump lands on the start of an instruction strictly inside the same body, every constant reference
+   names an existing constant, every name operand is a string constant, and every function body's
+   last instruction is a return.  (No execution involved; the stack discipline is the verifier's part.) *)
+Theorem C18_compile_structure : forall fuel (ast : program) p,
+  compile_program fuel ast = CompOk p ->
+  StructProofs.body_ok (pconsts p) (pmain p) /\
+  Forall (fun nf => StructProofs.body_ok (pconsts p) (fcode (snd nf)) /\ StructProofs.ends_in_return (fcode (snd nf))) (pfuncs p).
+Proof. exact StructProofs.compile_structure. Qed.
